@@ -209,7 +209,7 @@ static Json gen_c13(uint64_t seed, long i, std::vector<Format*> const& fmts)
         if (pk < 30) { o.set("p", "sub"); o.set("x", (int)r.below(20)); o.set("y", (int)r.below(20)); o.set("w", (int)r.below(20)); o.set("h", (int)r.below(20)); if (r.chance(1, 3)) o.set("view", 1); }
         else if (pk < 42) o.set("p", "dev");
         else if (pk < 48) o.set("p", "info");
-        else if (pk < 58) o.set("p", "view");
+        else if (pk < 58) { o.set("p", "view"); if (r.chance(1, 2)) o.set("dorg", (int)r.range(1, 4)); if (r.chance(1, 2)) o.set("dscan", 1); }
         else if (pk < 66)
         {
             o.set("p", "small"); o.set("dw", (int)r.below(4)); o.set("dh", (int)r.below(4));
